@@ -157,3 +157,30 @@ M("c01-crlf-control-line", "C01", "crlf", (LX, '            r"(?:\\r?\\n|\\Z)",\
 M("c01-linecount-wrong-span", "C01", "line-count", (LX, 'self.lineno += self.text[mp : self.match_position].count("\\n")', 'self.lineno += match.group(0).count("\\n")'))
 M("c01-scan-returns-group", "C01", "zero-width-consumer", (LX, "                    self.text[\n                        startpos : self.match_position - len(match.group(1))\n                    ],", "                    self.text[\n                        self.match_position - 1 : self.match_position - len(match.group(1))\n                    ],"))
 M("c01-benign-max", "C01", "silent", (LX, "self.match_position = end + 1 if end == start else end", "self.match_position = max(end, start + 1)"))
+
+# ---------------------------------------------------------------- C10
+F = "mako/filters.py"
+M("c10-handler-str-bytes", "C10", "handler-type", (F, 'return (str(text, "ascii"), ex.end)', 'return (str(text), ex.end)'))
+M("c10-xml-class-no-quote", "C10", "xml-table", (F, "r'([&<\"\\'>])'", "r'([&<\">])'"))
+M("c10-xml-table-extra-key", "C10", "xml-table", (F, "    \"'\": \"&#39;\",  # also &apos; in html-only\n", ""))
+M("c10-escapable-latin1-only", "C10", "entity-escaper", (F, "r'[\"&<>]|[^\\x00-\\x7f]'", "r'[\"&<>]|[\\x80-\\xff]'"))
+M("c10-escapable-no-amp", "C10", "entity-escaper", (F, "r'[\"&<>]|[^\\x00-\\x7f]'", "r'[\"<>]|[^\\x00-\\x7f]'"))
+M("c10-decode-bytes-returned", "C10", "decode-type", (F, "                return str(x, encoding=key)", "                return x"))
+M("c10-trim-chars", "C10", "small", (F, "    return string.strip()", "    return string.strip(' ')"))
+M("c10-flag-h-xml", "C10", "small", (F, '"h": "filters.html_escape",', '"h": "filters.xml_escape",'))
+M("c10-handler-name", "C10", "handler-type", (F, 'codecs.register_error("htmlentityreplace", htmlentityreplace_errors)', 'codecs.register_error("htmlentityreplaced", htmlentityreplace_errors)'))
+M("c10-benign-decode", "C10", "silent", (F, 'return (str(text, "ascii"), ex.end)', 'return (text.decode("ascii"), ex.end)'))
+
+# ---------------------------------------------------------------- C18
+CM = "mako/cmd.py"
+M("c18-raw-label-compare", "C18", "label-compare", (LX, 'if m is not None and _normalize_encoding(m.group(1)) != "utf-8":', 'if m is not None and m.group(1) != "utf-8":'))
+M("c18-cmd-bytes-to-stdout", "C18", "render-encoding", (CM, "        elif output_encoding:\n            sys.stdout.buffer.write(rendered)\n        else:", "        else:"))
+M("c18-input-encoding-first", "C18", "precedence", (LX, "parsed_encoding = m.group(1) if m else known_encoding or \"utf-8\"", "parsed_encoding = known_encoding or (m.group(1) if m else \"utf-8\")"))
+M("c18-str-branch-default-ascii", "C18", "precedence", (LX, 'encoding = m and m.group(1) or known_encoding or "utf-8"', 'encoding = m and m.group(1) or known_encoding or "ascii"'))
+M("c18-decode-unwrapped", "C18", "decode-wrap", (LX, "            try:\n                text = text.decode(parsed_encoding)\n            except UnicodeDecodeError:\n                raise exceptions.CompileException(\n                    \"Unicode decode operation of encoding '%s' failed\"\n                    % parsed_encoding,\n                    text.decode(\"utf-8\", \"ignore\"),\n                    0,\n                    0,\n                    filename,\n                )", "            text = text.decode(parsed_encoding)"))
+M("c18-bom-kept", "C18", "decode-wrap", (LX, "            text = text[len(codecs.BOM_UTF8) :]\n", "            text = text[1:]\n"))
+M("c18-module-encoded-utf8", "C18", "module-encoding", (T, 'source = source.encode(lexer.encoding or "ascii")', 'source = source.encode("utf-8")'))
+M("c18-render-unicode-encodes", "C18", "render-encoding", (R, "    if as_unicode:\n        buf = util.FastEncodingBuffer()\n    else:", "    if False:\n        buf = util.FastEncodingBuffer()\n    else:"))
+M("c18-getvalue-always-encodes", "C18", "render-encoding", (U, "        if self.encoding:\n            return self.delim.join(self.data).encode(\n                self.encoding, self.errors\n            )\n        else:\n            return self.delim.join(self.data)", "        return self.delim.join(self.data).encode(\n            self.encoding or 'utf-8', self.errors\n        )"))
+M("c18-coding-class-narrow", "C18", "module-encoding", (LX, 'r"#.*coding[:=]\\s*([-\\w.]+).*\\r?\\n"', 'r"#.*coding[:=]\\s*([-\\w]+).*\\r?\\n"'))
+M("c18-comment-not-skipped", "C18", "decode-wrap", (LX, "        self.match_reg(self._coding_re)\n", ""))
